@@ -33,6 +33,8 @@ ASSUMPTIONS = [
     'if update or save raised, C03 demands nothing (C10/C18 judge those runs)',
     'sub-directory updates are judged inside the updated directory plus the MANIFEST chain above it',
     'one small base tree (4 files, 3 directories, nesting 2); contents incl. an empty file',
+    'interface lib_same: the two rounds of a history run on ONE loader object (update+save, edit, update+save), with '
+    'options under which the first save renames Manifests (compression / decompression) and without',
 ]
 
 TOP = scen.TOP
@@ -107,9 +109,16 @@ def apply_edit_disk(root, edit):
     raise ValueError(edit)
 
 
-def run_update(root, iface, upath, o, create):
-    if iface == 'lib':
+def run_update(root, iface, upath, o, create, keep=None):
+    """keep: dict carried across the rounds of one history; with iface 'lib_same' the loader object created in
+    the first round is REUSED for every later round (a long-lived loader), otherwise each round builds its own."""
+    if iface in ('lib', 'lib_same'):
         def go():
+            if iface == 'lib_same' and keep is not None and keep.get('loader') is not None:
+                m = keep['loader']
+                m.update_entries_for_directory(upath)
+                m.save_manifests(force=o['force'])
+                return 0
             kw = {}
             if o['hashes'] is not None:
                 kw['hashes'] = list(o['hashes'])
@@ -123,6 +132,8 @@ def run_update(root, iface, upath, o, create):
             if create:
                 kw['allow_create'] = True
             m = gem.loader(root, TOP, **kw)
+            if iface == 'lib_same' and keep is not None:
+                keep['loader'] = m
             m.update_entries_for_directory(upath)
             m.save_manifests(force=o['force'])
             return 0
@@ -160,6 +171,30 @@ def judge_disk(root, upath, o, case):
     from gverif import refmanifest as rm
     v = refverify.expected_verify(root, TOP, upath)
     if v.kind == 'dontcare':
+        # a Manifest file that THIS history's updates wrote (content differs from the prior state) must at least be a
+        # Manifest: if the reference parser rejects it, the update did not describe the tree at all
+        prior = case['tree']['files']
+        for dp, _dn, fns in os.walk(root):
+            for fn in fns:
+                if not fn.startswith('Manifest'):
+                    continue
+                rel = os.path.relpath(os.path.join(dp, fn), root)
+                with open(os.path.join(dp, fn), 'rb') as f:
+                    now = f.read()
+                if prior.get(rel) == now:
+                    continue
+                st, why = refverify.read_manifest(root, rel)
+                if st == 'reject':
+                    return [('written_manifest_invalid', f'{rel} as written by the update is rejected by the reference '
+                             f'parser: {why}', {'manifest': rel})], None
+                if st == 'dontcare':
+                    # the reference leaves the reading of this text open (e.g. non-ASCII whitespace inside a line);
+                    # whatever the reading, gemato must be able to verify what gemato has just written
+                    fv = gem.lib_verify(root, TOP, upath)
+                    if not (fv['kind'] == 'ret' and fv['value'] is True):
+                        return [('fresh_verify_fails', f'{rel} as written by the update ({why}): '
+                                 + gem.brief(fv) + ' ' + str(fv.get('path')),
+                                 {'got': gem.brief(fv), 'path': fv.get('path'), 'manifest': rel})], None
         return [], v.dc[0]
     if upath and v.chain_broken:
         # sub-directory update: a Manifest ABOVE the updated directory that the update did not rewrite and
@@ -219,6 +254,7 @@ def check_case(case, scratch, stats=None):
     root = fresh_root(scratch)
     Tree.from_json(case['tree']).write(root)
     out = []
+    keep = {}
     for rn, (edit, upath, o, iface) in enumerate(case['rounds']):
         apply_edit_disk(root, edit)
         create = not os.path.exists(os.path.join(root, TOP))
@@ -228,7 +264,7 @@ def check_case(case, scratch, stats=None):
             break
         if iface == 'cli' and o['sort'] and o['profile'] == 'default':
             o = dict(o, sort=False)      # the CLI has no sort switch
-        r = run_update(root, iface, upath, o, create)
+        r = run_update(root, iface, upath, o, create, keep)
         ok = (r['kind'] == 'ret' and r.get('value') == 0)
         if stats is not None:
             stats.transitions += 1
@@ -307,6 +343,22 @@ def run_shard(spec, tier, seed, scratch):
         stats.case(desc, nontrivial=stats.compared > n0 + 1)
         for x in vs:
             stats.violation(x['sig'], x['case'], x['message'])
+    # the same two-round histories driven through ONE long-lived loader object (state the loader keeps across an
+    # update+save - loaded/updated/renamed Manifests - is part of the history); options that make the first save
+    # rename Manifests (compress / decompress) included
+    o_ren = [oo_ for oo_ in (opts[3], opts[4], opts[5] if tier == 'quick' else opts[9]) ]
+    for e1, u1, e2, u2, oo in itertools.product(edits if tier == 'thorough' else ['none', 'alter_size', 'add'],
+                                                ('', 'd'), e2s + ['add'], ('', 'd'), [o0] + o_ren):
+        desc = (name, 'two_rounds_same_loader', e1, u1, e2, u2, oo['wm'], oo['fmt'], oo['force'])
+        case = {'tree': tj, 'prior': name, 'rounds': [(e1, u1, oo, 'lib_same'), (e2, u2, oo, 'lib_same')],
+                'desc': repr(desc)}
+        n0 = stats.compared
+        vs = check_case(case, scratch, stats)
+        stats.case(desc, nontrivial=stats.compared > n0 + 1)
+        if stats.compared > n0 + 1:
+            stats.counters['same_loader_second_round_judged'] += 1
+        for x in vs:
+            stats.violation(x['sig'], x['case'], x['message'])
     # thorough: three-round histories on the whole tree / the sub-directory d (states reached from
     # non-initial Manifest states, each judged)
     if tier == 'thorough':
@@ -330,4 +382,6 @@ def finish(total, tier):
         errs.append(f'vacuity: only {total.compared} completed updates were judged')
     if not any(k.startswith('round1/') for k in total.outcomes):
         errs.append('vacuity: no second round executed')
+    if not total.counters.get('same_loader_second_round_judged'):
+        errs.append('vacuity: no second round on a reused loader was judged')
     return errs
